@@ -289,6 +289,21 @@ def rule_rules(run, db):
         a0 = lambda k: R3.func('idx', [Rat(R3.func('idx', [Rat(R3.atom('alphas')), Rat(R3.const(0))])), Rat(R3.const(k))])
         a1 = lambda k: R3.func('idx', [Rat(R3.func('idx', [Rat(R3.atom('alphas')), Rat(R3.const(1))])), Rat(R3.const(k))])
         dxdu = 2 * u if 'Qbfs' in name else 4 * u
+        known_forms = {Rat(a_(k)).key() for a_ in (a0, a1) for k in (0, 1)}
+
+        def alpha_atoms(r_, acc):
+            for at_ in r_.atoms():
+                if 'alphas' in at_ and at_ not in acc:
+                    if at_ in known_forms:
+                        acc.add(at_)
+                        continue
+                    acc.add(at_)
+            return acc
+        odd = sorted(a_ for a_ in alpha_atoms(z, set()) | alpha_atoms(zp, set()) if a_ not in known_forms)
+        if odd:
+            # the table of sums is read in another way than alphas[row][k] (row views, slices added together): the declared contract
+            # d/dx alphas[0][k] = alphas[1][k] cannot be attached to what appears here
+            raise AnalysisError('%s: the alpha sums are read as %s, not as alphas[0][k] / alphas[1][k]: the chain-rule contract is not attached' % (name, odd[:2]))
         for k in (0, 1):
             (mono,) = a0(k).t
             R3.deriv[mono[0][0]] = {'u': Rat(a1(k)) * dxdu}
@@ -588,7 +603,7 @@ def check(run, db, tier):
     from . import clenshawfixed as CF
     run.group(CF.decided, run, db)
     run.group(CF.with_fallback(seed_rules, ('jacobi_sum_clenshaw_der', 'compute_z_zprime_Qbfs', 'compute_z_zprime_Qcon', 'compute_z_zprime_Q2d'), 'C09.seed', 9), run, db)
-    run.group(rule_rules, run, db)
+    run.group(CF.with_fallback(rule_rules, ('compute_z_zprime_Qbfs', 'compute_z_zprime_Qcon'), 'C09.rule', 2), run, db)
     run.group(offaxis_rules, run, db)
     run.group(more_rules, run, db)
     from . import c10
